@@ -1,6 +1,7 @@
 """Shared driver: run GASOL's per-block pipeline on block texts under an option set and
 judge the emitted blocks with the Coq validator `equiv_block` (vm_compute), searching a
 distinguishing state with `Val.Search.differ` when the validator rejects."""
+import os
 import itertools
 import json
 import re
@@ -54,6 +55,7 @@ def ensure_built():
 
 def coq_pairs(pairs, name, chunk=150):
     """pairs: list of (old_items, new_items). Returns list of verdicts: True/False/None(unsupported)."""
+    name = "%s_%d" % (name, os.getpid())      # private file names: runs of the checks may overlap
     ensure_built()
     verdict = [None] * len(pairs)
     enc = []
@@ -106,6 +108,7 @@ def stacks_for(need, rng, n=40):
 def search_witness(old_items, new_items, rng, name):
     """Search a concrete state on which the reference semantics tells the two blocks apart.
     Segment-wise (between events). Returns dict or None."""
+    name = "%s_%d" % (name, os.getpid())      # private file names: runs of the checks may overlap
     ensure_built()
     segs1, ev1 = evmconv.split_events(old_items)
     segs2, ev2 = evmconv.split_events(new_items)
